@@ -1199,7 +1199,8 @@ def native_history_replay(o=None, nhist=150, length=40, seed=0):
         x = fd.x
         inputs = dict(gammadown3=np.array([[1 + x * x, 0.1 * x, 0 * x], [0.1 * x, 1 + 0 * x, 0 * x], [0 * x, 0 * x, 2 + x]]),
                       Kdown3=np.array([[0.1 * x, 0 * x, 0 * x], [0 * x, 0.2 + 0 * x, 0 * x], [0 * x, 0 * x, 0.3 * x]]),
-                      alpha=1 + 0.1 * x, betaup3=np.array([0.1 * x, 0 * x, 0.2 + 0 * x]))
+                      alpha=1 + 0.1 * x, betaup3=np.array([0.1 * x, 0 * x, 0.2 + 0 * x]),
+                      user_scalar_field=np.sin(x))        # a user-supplied field whose name is not in the variable catalogue
         for k, v in inputs.items():
             rel.data[k] = v
         rel.freeze_data()
@@ -1209,7 +1210,7 @@ def native_history_replay(o=None, nhist=150, length=40, seed=0):
         ids = {k: id(rel.data[k]) for k in inputs}
         hist = []
         for step in range(length):
-            k = rng.choice(cheap)
+            k = rng.choice(cheap) if (step > 2 or rng.random() < 0.5) else 'user_scalar_field'
             hist.append(k)
             try:
                 v = rel[k]
